@@ -50,7 +50,8 @@ REQUIRED_TRIEBUILD = ["KV.C03TrieBuild.trie_write_frame", "KV.C03TrieBuild.key_o
                       "KV.C03TrieBuild.trie_build_represents_closed", "KV.C03TrieBuild.trie_end_to_end_closed",
                       "KV.C03TrieBuild.blank_value_partial", "KV.C03TrieBuild.trie_build_represents", "KV.C03TrieBuild.trie_end_to_end",
                       "KV.C03TrieBuild.trie_build_blanks_exact", "KV.C03TrieBuild.trie_scoreSeq", "KV.C03TrieBuild.trie_end_to_end_sentence", "KV.C03TrieBuild.p_enc", "KV.C03TrieBuild.p_arith",
-                      "KV.C03TrieBuild.example_end_to_end_pruned", "KV.C03TrieBuild.ex_enc", "KV.C03TrieBuild.example_end_to_end_closed", "KV.C03TrieBuild.example_end_to_end_null"]
+                      "KV.C03TrieBuild.example_end_to_end_pruned", "KV.C03TrieBuild.build_from_arpa", "KV.C03TrieBuild.k_enc", "KV.C03TrieBuild.k_unk",
+                      "KV.C03TrieBuild.example_end_to_end_unk", "KV.C03TrieBuild.unk_class_deviates", "KV.C03TrieBuild.ex_enc", "KV.C03TrieBuild.example_end_to_end_closed", "KV.C03TrieBuild.example_end_to_end_null"]
 
 TYPE_NAMES = ["probing", "rest-probing", "trie", "quant-trie", "array-trie", "quant-array-trie"]
 
@@ -364,9 +365,75 @@ def gram_tokens(grams, order, ids, saw_unk):
                     b = 0x80000000
             key = [ids.get(w, 0) for w in g][::-1]
             toks.append(",".join(map(str, key)) + ":%d:%d" % (p, b if n < order else 0))
-    if not saw_unk:
-        toks.append("0:%d:0" % f32_bits("-100"))     # hallucinated <unk>: unknown_missing_logprob, back-off +0.0
+    # no record for a missing <unk>: the Lean builder makes the zeroed slot itself (withUnkSlot) and applies the fix-up after
     return toks
+
+
+def render_arpa(grams, order):
+    lines = ["\\data\\"] + ["ngram %d=%d" % (n, len(grams[n])) for n in range(1, order + 1)] + [""]
+    for n in range(1, order + 1):
+        lines.append("\\%d-grams:" % n)
+        for g, (pt, bt) in grams[n].items():
+            lines.append(pt + "\t" + " ".join(g) + ("\t" + bt if bt is not None and n < order else ""))
+        lines.append("")
+    lines += ["\\end\\", ""]
+    return "\n".join(lines).encode()
+
+
+def _q(rng, lo, hi):
+    return "%g" % (-rng.randint(lo, hi) / 16.0)
+
+
+def unk_class_cases(rng, nrandom):
+    """Input class of the known finding `blank-based-on-hallucinated-unk`: ARPA without an <unk> unigram, n-grams containing
+    the literal <unk>, suffixes pruned so that blanks with newest word <unk> (and messages to the <unk> slot) are needed.
+    The real builder computes those blanks from the zeroed slot 0; the Lean builder must write the same bytes."""
+    U = "<unk>"
+    uni = {("<s>",): ("-1.0", "-0.5"), ("</s>",): ("-1.5", None), ("a",): ("-1.25", "-0.25"), ("b",): ("-1.75", "-0.125"),
+           ("c",): ("-2.0", "-0.375")}
+    fixed = [
+        # corpus/C01_blank_on_hallucinated_unk.json: blank `b <unk>`
+        (3, {2: {("a", "b"): ("-0.5", "-0.0625"), ("<s>", "a"): ("-0.75", "-0.03125")}, 3: {("a", "b", U): ("-0.375", None)}}),
+        # chain of two blanks with newest word <unk>: `b <unk>`, `a b <unk>`
+        (4, {2: {("<s>", "a"): ("-0.75", "-0.03125"), ("a", "b"): ("-0.5", "-0.0625")}, 3: {("<s>", "a", "b"): ("-0.625", "-0.25")},
+             4: {("<s>", "a", "b", U): ("-0.375", None)}}),
+        # <unk> inside: blank `<unk> b` asks the zeroed slot for its back-off; real `a <unk>` ends in <unk>
+        (3, {2: {("a", U): ("-0.5", "-0.0625")}, 3: {("a", U, "b"): ("-0.25", None)}}),
+        # control: no blank, real n-grams end in <unk>
+        (3, {2: {("a", "b"): ("-0.5", "-0.0625"), ("b", U): ("-0.875", "-0.5")}, 3: {("a", "b", U): ("-0.375", None)}}),
+        # blank `c <unk>` shared by two trigrams, plus a blank not ending in <unk>
+        (3, {2: {("a", "c"): ("-0.5", None), ("b", "c"): ("-0.5", "0"), ("a", "b"): ("-0.25", "-0.125")},
+             3: {("a", "c", U): ("-0.375", None), ("b", "c", U): ("-0.4375", None), ("a", "b", "c"): ("-0.3125", None)}}),
+    ]
+    out = []
+    for order, hi in fixed:
+        grams = {1: dict(uni)}
+        for n in range(2, order + 1):
+            grams[n] = dict(hi.get(n, {}))
+        out.append((render_arpa(grams, order), grams, order, "fixed"))
+    words = ["<s>", "</s>", "a", "b", "c"]
+    for _ in range(nrandom):
+        order = rng.choice([3, 3, 4])
+        grams = {n: {} for n in range(1, order + 1)}
+        for w in words:
+            grams[1][(w,)] = (_q(rng, 4, 60), rng.choice([None, "0", _q(rng, 1, 20)]))
+        for _k in range(rng.randint(2, 7)):
+            n = rng.randint(2, order)
+            g = []
+            for i in range(n):
+                pool = ["a", "b", "c", U, U] + (["<s>"] if i == 0 else []) + (["</s>"] if i == n - 1 else [])
+                g.append(rng.choice(pool))
+            if rng.random() < 0.7:
+                g[-1] = U
+            g = tuple(g)
+            while len(g) >= 2:        # context closure (the real builder throws on a missing context)
+                if g not in grams[len(g)]:
+                    grams[len(g)][g] = (_q(rng, 1, 40), rng.choice([None, "0", _q(rng, 1, 20)]) if len(g) < order else None)
+                g = g[:-1]
+        if not all(grams[n] for n in grams):
+            continue
+        out.append((render_arpa(grams, order), grams, order, "random"))
+    return out
 
 
 def grams_of_entries(model):
@@ -412,7 +479,7 @@ def triebuild_stream(ctx, pair, d, arpa_bytes, grams, order, tag):
     keys = [t.split(":")[0].replace(",", " ") for t in toks]
     ctx.rng.shuffle(keys)
     keys = keys[:200]
-    dops = ["triebuild %d %d %d %s %s" % (order, counts[0], search, " ".join(toks), data[search:].hex())] + ["trieq " + k for k in keys]
+    dops = ["triebuild %d %d %d %d %s %s" % (order, counts[0], search, f32_bits("-100"), " ".join(toks), data[search:].hex())] + ["trieq " + k for k in keys]
     rc2, o2, e2 = pair.driver(dops, timeout=600)
     if rc2 != 0 or len(o2) != len(dops):
         return [("driver failed in triebuild", {"rc": rc2, "stderr": e2[-800:]})]
@@ -684,6 +751,15 @@ def run(ctx):
             for what, detail in tb[:2]:
                 ctx.violation("correspondence: " + what, {"stream": "triebuild", "arpa_text": c.arpa.decode("utf-8", "replace")[:4000], "detail": detail}, no_input=True)
                 problems.append("triebuild correspondence broken: " + what)
+            if len(ctx.violations) >= 6:
+                break
+        # the class of the known finding blank-based-on-hallucinated-unk: no <unk> unigram, blanks whose newest word is <unk>
+        for (ab, gr, od, kind) in unk_class_cases(rng, 2 if quick else 60):
+            ctx.hist("triebuild.unk_class", kind)
+            tb = triebuild_stream(ctx, pair, os.path.join(d, "tbd"), ab, gr, od, "unkclass")
+            for what, detail in tb[:2]:
+                ctx.violation("correspondence: " + what, {"stream": "triebuild", "arpa_text": ab.decode("utf-8", "replace")[:4000], "detail": detail}, no_input=True)
+                problems.append("triebuild correspondence broken (hallucinated-<unk> class): " + what)
             if len(ctx.violations) >= 6:
                 break
         # component streams
